@@ -164,6 +164,24 @@ def run_case(case):
     tables = {"walked-collector": {"feature": coll.summary_counts.features, "rule": coll.summary_counts.rules,
                                    "scenario": coll.summary_counts.scenarios, "step": coll.summary_counts.steps}}
     lists = {"walked-collector": ([s.name for s in coll.failed_scenarios], [s.name for s in coll.errored_scenarios])}
+    # one collector per feature, merged with `+=` into a grand total (the documented way to combine SummaryCounts)
+    from behave.summary import SummaryCounts
+    total = SummaryCounts()
+    for ft in feats:
+        c1 = SummaryCollector()
+        c1.visit_feature(ft)
+        total += c1.summary_counts
+    tables["merged-collectors"] = {"feature": total.features, "rule": total.rules, "scenario": total.scenarios,
+                                   "step": total.steps}
+    for kind, t in tables["merged-collectors"].items():
+        n_all = getattr(t, "all", None)
+        n_all = n_all() if callable(n_all) else n_all
+        if n_all != sum(cen[kind].values()):
+            v.append(({"subcheck": "counts", "clause": "total", "impl": "merged-collectors", "kind": kind},
+                      "merged collectors: %s.all = %r, the model has %d %ss" % (kind, n_all, sum(cen[kind].values()), kind)))
+    if bool(total) != bool(sum(sum(c.values()) for c in cen.values())):
+        v.append(({"subcheck": "counts", "clause": "truthiness", "impl": "merged-collectors"},
+                  "bool(merged SummaryCounts) = %s although elements were counted" % bool(total)))
     done_tables = set()
     for impl, fmt, r in holder["reps"]:
         if impl not in done_tables:
